@@ -1195,7 +1195,10 @@ class World:
                        for n, a in master.cell.apps.items())
         self.fps.append(logmod.fingerprint(state))
         self.log.ev(when, state)
-        if self.prop in CELL_PROPS:
+        if self.prop == 'C08':
+            if caught_up and when == 'cycle':
+                self.restart_probe_c08()
+        elif self.prop in CELL_PROPS:
             pass
         elif self.prop in ('C09', 'C10'):
             self.check_published(when)
@@ -1207,6 +1210,68 @@ class World:
         self.writes_at_cycle_end = self.master_client.nwrites
         self.placement_at_cycle_end = self.placement_digest() \
             if self.prop == 'C11' else None
+
+    def restart_probe_c08(self):
+        """C08 across a fail-over: a fresh master's load_model() on a copy of
+        the tree (no cycle is computed) must keep every instance recorded
+        under a frozen server, and under a server that is down, on that
+        server - whatever the retention time says is the next cycle's
+        business.  Only what the running master itself published right now
+        is judged (caught-up cycle, one record per instance)."""
+        old = self.master
+        zk2 = self.zk.clone_tree()
+        stored = self.stored_placement(zk2)
+        scheduled_before = set(zk2.children(z.SCHEDULED) or [])
+        facts = {}
+        for app, recs in stored.items():
+            if len(recs) != 1:
+                continue
+            srv = recs[0][0]
+            pres = zk2.nodes.get(z.path.server_presence(srv))
+            entry = zk2.nodes.get(z.path.placement(srv, app))
+            facts[app] = (srv, pres.ctime if pres else None, entry.ctime)
+        if not facts:
+            return
+        client = zk2.connect('probe-master')
+        probe = mastermod.Master(zkbackend.ZkBackend(client), 'cell')
+        try:
+            self._guard('probe-load', probe.load_model)
+        except MasterDied:
+            return                      # (C09/C11 judge a start that dies)
+        self.probes['c08_restart_probes'] = \
+            self.probes.get('c08_restart_probes', 0) + 1
+        for app in sorted(facts):
+            srv, pres_ctime, entry_ctime = facts[app]
+            oldapp = old.cell.apps.get(app)
+            if oldapp is None or oldapp.server != srv or \
+                    app not in scheduled_before:
+                continue
+            if not (self._zk_obj(z.path.server(srv)) or {}).get('parent'):
+                continue
+            state = self._stored_state(srv)
+            if pres_ctime is not None and pres_ctime <= entry_ctime:
+                if state != 'frozen':
+                    continue            # a healthy up server: C11
+                sig = 'C08:frozen-server-lost-instance:at-restart'
+            elif pres_ctime is None:
+                manifest = self._zk_obj(z.path.scheduled(app)) or {}
+                if manifest.get('lease') or manifest.get('schedule_once'):
+                    # re-evaluated when the server's presence is not the
+                    # one the instance was placed under
+                    continue
+                sig = 'C08:lost-placement-at-restart:server-down'
+            else:
+                continue                # server restarted since
+            self.probes['c08_restart_entries'] = \
+                self.probes.get('c08_restart_entries', 0) + 1
+            obj = probe.cell.apps.get(app)
+            if obj is None or obj.server != srv:
+                self.fail(sig + ':master-level',
+                          '%s recorded under %s (recorded state %s); a '
+                          'restarted master has it on %r before any cycle' % (
+                              app, srv, state,
+                              obj.server if obj else 'no such app'))
+                return
 
     def restart_probe(self, strong):
         """C11: a fresh master's load_model() on a copy of the tree."""
